@@ -115,11 +115,11 @@ PROPS = {
         not_yet_proved=["per-call equality of the decision with the kernel's as a theorem (it is an oracle run: corr kernel-perm)", "setgid directory inheritance (the sticky bit is implemented since the repair 968ed53, modelled, and compared with the kernel)"],
     ),
     "C09": dict(
-        props_files=["Avfs/Props/C09.lean"],
+        props_files=["Avfs/Props/C09.lean", "Avfs/Props/C09_model.lean"],
         translators=FACTX,
         parts=[dict(name="rofs")],
         trusted=["translator harness/cmd/factx (go/ast, syntactic, fails closed: an unrecognised method body becomes Shape.unknown which no rule accepts)",
-                 "the list of read-only base methods (Avfs.Wrap.readOnlyBase) — each is a query of the base models that returns the store unchanged"],
+                 "the list of read-only base methods (Avfs.Wrap.readOnlyBase) — for the calls the MemFS model has (Stat, Lstat, ReadDir, ReadFile, Readlink, EvalSymlinks, Getwd, Chdir, SetUMask) 'returns the store unchanged' is proved (C09_model_readonly_call / _history); the lexical helpers and handle reads are pure by inspection"],
         assumptions=["RoFile.name uses reflect only to read the base file's name"],
         not_yet_proved=[],
     ),
